@@ -10,7 +10,9 @@ EXTENDS Uri, TLC
 ClausesOf(r) ==
   IF ~ResolveDefined(r.scope, r.ref) THEN {"~undefined_by_rfc3986"}
   ELSE IF r.ref = <<>> THEN {"~empty_reference"}
-  ELSE IF r.url = ResolveText(r.scope, r.ref) THEN {} ELSE {"uri_resolution"}
+  \* compared as (document part, fragment), an absent and an empty fragment identified: whether a join keeps a bare
+  \* trailing "#" is presentation, not designation
+  ELSE IF Defrag(r.url) = Defrag(ResolveText(r.scope, r.ref)) THEN {} ELSE {"uri_resolution"}
 
 VARIABLES l, bad
 INSTANCE TraceChain WITH Clauses <- ClausesOf
